@@ -171,6 +171,14 @@ def cat(parts):
                 if out and isinstance(out[-1], bytes):
                     out[-1] = out[-1] + q
                     continue
+            if out and isinstance(q, T) and q.op == "slice" and isinstance(out[-1], T) and out[-1].op == "slice" and veq(out[-1].args[0], q.args[0]):
+                # x[a:b] + x[b:c] is x[a:c]
+                lo0, hi0, lo1, hi1 = out[-1].args[1], out[-1].args[2], q.args[1], q.args[2]
+                if hi0 is not None and veq(hi0, lo1 if lo1 is not None else 0) and isinstance(hi0, int) and (lo0 is None or isinstance(lo0, int)):
+                    out[-1] = slc(q.args[0], lo0, hi1)
+                    if isinstance(out[-1], bytes) and len(out) > 1 and isinstance(out[-2], bytes):
+                        out[-2:] = [out[-2] + out[-1]]
+                    continue
             out.append(q)
     if not out:
         return b""
@@ -758,7 +766,7 @@ def truth(a):
         return ite(a.args[0], truth(_unfz1(a.args[1])), truth(_unfz1(a.args[2])))
     if a.op in ("cat", "scat") and any(isinstance(p, (str, bytes)) and len(p) for p in a.args):
         return True
-    if a.ty == BYTES and a.op in ("slice", "sized", "i2b", "hash"):
+    if a.ty == BYTES and a.op in ("slice", "sized", "i2b", "hash", "cat"):
         n = blen(a)
         if isinstance(n, int) and not isinstance(n, bool):
             return n > 0  # bytes of a known length are true iff that length is not zero
